@@ -33,7 +33,7 @@ ASSUMPTIONS = [
     "scope: meshes with <= 8 cells in 1-3 dimensions, nvdim 1-4, real float64 fields (default dtype)",
     "vector alphabet per nvdim: exact zero; +-L*e_k for every axis k; L*(3,4,0,..)/5 (also on the last two components), "
     "L*generic mixed-sign direction; L in {1, 1e-6, 1e-3, 5, 1e8, 1e150}; set-unit additionally 5e-9 and 1e-12 (non-zero, so they must get the target length); get-unit additionally 1e-9 (below the 1e-8 "
-    "threshold; outside the property's quantifier: orientation may be zero or unit there, nothing else is judged)",
+    "threshold: the orientation must be zero there, as the statement says)",
     "norm setting and norm/orientation are cell-wise: cells do not interact, so enumerating all chunks of the alphabet "
     "(each chunk next to zeros and to other magnitudes) covers all per-cell inputs of the alphabet",
     "targets {1, 2.5, 8e5, 0}; length compared with relative tolerance 1e-12, direction with absolute 1e-12 per "
@@ -321,11 +321,11 @@ def unit_get(ctx):
         u = np.array([float(Fr(float(x)) / Fr(L)) for x in v])
         unit_ok = bool(np.all(np.abs(o - u) <= 1e-12))
         if cls[idx] == "tiny":
-            # below the library's threshold and outside the quantified range: zero or unit, nothing else
-            if not (unit_ok or not np.any(o != 0)) and "t" not in seen:
+            # "lengths up to the library's absolute 1e-8 threshold count as zero there": the orientation is zero
+            if np.any(o != 0) and "t" not in seen:
                 seen.add("t")
-                ctx.fail("Field.orientation/tiny-vector-neither-zero-nor-unit",
-                         f"cell {idx}: {v.tolist()} has orientation {o.tolist()}", instance=inst)
+                ctx.fail("Field.orientation/vector-below-the-threshold-not-treated-as-zero",
+                         f"cell {idx}: {v.tolist()} (length 1e-9 <= 1e-8) has orientation {o.tolist()}, expected zero", instance=inst)
             continue
         if not unit_ok:
             if "u" not in seen:
@@ -487,10 +487,47 @@ def unit_reuse(ctx):
     _state_ok(ctx, f, "after-change" if change != "none" else "second-use", inst)
 
 
+def unit_provenance(ctx):
+    """fields with a past: values handed over as float32 / float16 arrays, or read back from a 4-byte binary OVF file, an
+    HDF5 file, or produced by an operator; the norm, the orientation and the norm setter keep their 1e-12 accuracy with
+    respect to the values the field actually holds (no hidden low-precision arithmetic)"""
+    import os
+    import shutil
+    import tempfile
+    src = ctx.choose("values-come-from", ["float32-array", "float16-array", "ovf-bin4", "ovf-txt", "hdf5", "negation", "sel"])
+    d = ctx.choose("nvdim", [3, 1])
+    n = (2, 2, 3)
+    mesh = df.Mesh(p1=(0, 0, 0), p2=(2e-9, 2e-9, 3e-9), n=n)
+    base = (C.tracer(n, d, ctx.seed) * 37.0 - 150.0)            # a few hundred: squares overflow float16, lengths do not
+    base[0, 0, 0] = 0.0
+    tmp = tempfile.mkdtemp(dir="/dev/shm", prefix="c15_")
+    try:
+        if src == "float32-array":
+            f = df.Field(mesh, nvdim=d, value=base.astype(np.float32))
+        elif src == "float16-array":
+            f = df.Field(mesh, nvdim=d, value=base.astype(np.float16))
+        elif src in ("ovf-bin4", "ovf-txt"):
+            p = os.path.join(tmp, "a.ovf")
+            df.Field(mesh, nvdim=d, value=base).to_file(p, representation=src.split("-")[1])
+            f = df.Field.from_file(p)
+        elif src == "hdf5":
+            p = os.path.join(tmp, "a.h5")
+            df.Field(mesh, nvdim=d, value=base).to_file(p)
+            f = df.Field.from_file(p)
+        elif src == "negation":
+            f = -df.Field(mesh, nvdim=d, value=base)
+        else:
+            f = df.Field(mesh, nvdim=d, value=base).sel(x=(0.0, 2e-9))
+    finally:
+        shutil.rmtree(tmp, ignore_errors=True)
+    _state_ok(ctx, f, f"values-from-{src}", ctx.key())
+
+
 def units(tier):
     return [
         {"name": "set", "fn": unit_set, "bound": None},
         {"name": "get", "fn": unit_get, "bound": None},
         {"name": "get_int", "fn": unit_get_int, "bound": None},
         {"name": "reuse", "fn": unit_reuse, "bound": None},
+        {"name": "provenance", "fn": unit_provenance, "bound": None},
     ]
